@@ -837,6 +837,13 @@ fn run_which(ctx: &Ctx, which: Which) -> Stats {
             st.sample(json!({"history": i, "nsheets": plan.nsheets, "ops": done.iter().take(12).collect::<Vec<_>>(), "ops_total": done.len()}));
         }
         if let Some(v) = viol {
+            if !clean {
+                if let Some(f) = open.iter().find(|f| f.explains(&v.sig)) {
+                    // already explained by a committed open finding: tally without shrinking
+                    st.count(&format!("known_hit.{}", f.id));
+                    return;
+                }
+            }
             let small = if std::env::var("VERIF_NOSHRINK").is_ok() {
                 done.clone()
             } else {
